@@ -380,13 +380,13 @@ func C14() *check.Property {
 		Title:    "Downstream termination cancels upstream without waiting for it",
 		Patterns: cat(CorePatterns, PluginPkgs, IOPluginPkgs, []string{PromPkg}, RatePkgs),
 		Scope:    append([]string{ro}, IOPluginPkgs...),
-		Rules:    []check.Rule{ruleNoUncancellableBlock(), ruleAwaitedRegistered(), ruleCtxWatch(), ruleCtxDoneTerminates(), ruleRetryCtx(), ruleRelease(), ruleSelfUnsubscribe(), ruleAddTeardown(), ruleFinalizerDiscipline(), ruleNoEmitUnderTeardownLock(), ruleCtxProvenance(), ruleCancelObserved(), ruleDownstreamLink(), ruleStateLevel(), ruleSequentialInnerGuard(), rulePositionStable()},
+		Rules:    []check.Rule{ruleNoUncancellableBlock(), ruleAwaitedRegistered(), ruleCtxWatch(), ruleCtxDoneTerminates(), ruleRetryCtx(), ruleRelease(), ruleSelfUnsubscribe(), ruleAddTeardown(), ruleFinalizerDiscipline(), ruleNoEmitUnderTeardownLock(), ruleCtxProvenance(), ruleCancelObserved(), ruleDownstreamLink(), ruleStateLevel(), ruleSequentialInnerGuard(), rulePositionStable(), ruleTeardownAllRun()},
 		Explanation: "Static argument: upstream release is the teardown chain (RELEASE, SELF-UNSUBSCRIBE, ADD-TEARDOWN — the positive half, shared with C03), and an operator's teardown exists only once its subscribe function has returned. " +
 			"NO-UNCANCELLABLE-BLOCK therefore lists every unbounded wait that executes before the subscribe closure returns (Wait, Collect, range over a channel, select without a timer case — located through the model's contexts, " +
 			"including waits in upstream slots that run inside the closure) and accepts it only when the waited-on object is released by something registered on the destination itself. CTX-WATCH checks the context case of the context-aware sources.",
 		NotDecided:  "that a cancelled upstream actually stops promptly (depends on the source); waits bounded by timers are accepted without checking their duration.",
 		Assumptions: []string{"a Subscription is only closed by its terminal notification, its own Unsubscribe or the Unsubscribe of a subscription it was added to"},
 		Floors:      map[string]int{"blocking_sites_in_subscribe": 6, "acquisitions": 150, "slice_fields_scanned": 10},
-		Controls:    map[string]string{"zz_verif_controls_c14.go": roControl(controlsC14 + controlsPositionStable), "zz_verif_controls_c12.go": roControl(controlsC12), "zz_verif_controls_c05.go": roControl(controlsC05), "zz_verif_controls_c03.go": roControl(controlsC03 + controlsCancelObserved), "zz_verif_controls_c06.go": roControl(controlsC06), "zz_verif_controls_c09.go": roControl(controlsC09 + controlsC09b)},
+		Controls:    map[string]string{"zz_verif_controls_c14.go": roControl(controlsC14 + controlsPositionStable), "zz_verif_controls_c12.go": roControl(controlsC12), "zz_verif_controls_c05.go": roControl(controlsC05), "zz_verif_controls_c03.go": roControl(controlsC03 + controlsC03b + controlsCancelObserved), "zz_verif_controls_c06.go": roControl(controlsC06), "zz_verif_controls_c09.go": roControl(controlsC09 + controlsC09b)},
 	}
 }
